@@ -144,28 +144,46 @@ def columnfile_case(run, seed, idx, columnfile, parameters):
         run.count("hdf_overwrites_same_length")
         if not all(np.array_equal(np.asarray(b.getcolumn(t), float), np.asarray(same.getcolumn(t), float)) for t in titles):
             V("hdf:overwrite-same-length", "overwriting a group with same-length data does not read back the new data")
-        n2 = n + int(r.integers(1, 5))
-        diff = columnfile.colfile_from_dict({t: gen_values(r, n2, tcls[t]) for t in titles})
-        raised = None
-        with contextlib.redirect_stdout(io.StringIO()):
-            try:
-                columnfile.colfile_to_hdf(diff, h5, name="peaks")
-            except Exception as e:
-                raised = e
-            try:
-                b = columnfile.colfile_from_hdf(h5, name="peaks")
-                state = "new" if all(np.array_equal(np.asarray(b.getcolumn(t), float), np.asarray(diff.getcolumn(t), float))
-                                     for t in titles) and b.nrows == n2 else \
-                    ("old" if all(np.array_equal(np.asarray(b.getcolumn(t), float), np.asarray(same.getcolumn(t), float))
-                                  for t in titles) and b.nrows == n else "mixture")
-            except Exception as e:
-                state = "unreadable (%s: %s)" % (type(e).__name__, e)
-        run.count("hdf_overwrites_different_length")
-        if raised is None and state != "new":
-            V("hdf:overwrite-different-length:silent", "different-length overwrite did not raise and file holds %s data" % state)
-        if raised is not None and state != "old":
-            V("hdf:overwrite-different-length:mixture", "different-length overwrite raised %s but the file now holds %s data"
-              % (type(raised).__name__, state))
+        import h5py
+        for variant in ("longer", "shorter", "resizable-longer", "resizable-shorter"):
+            if "shorter" in variant and n < 2:
+                continue
+            n2 = n + int(r.integers(1, 5)) if "longer" in variant else int(r.integers(1, n))
+            h5v = os.path.join(d, "ov_%s.h5" % variant)
+            with contextlib.redirect_stdout(io.StringIO()):
+                if variant.startswith("resizable"):
+                    # a group written by other tools with resizable datasets
+                    with h5py.File(h5v, "w") as hh:
+                        gg = hh.create_group("peaks")
+                        gg.attrs["ImageD11_type"] = "peaks"
+                        for t in titles:
+                            dat = np.asarray(same.getcolumn(t)).astype(np.int64 if t in columnfile.INTS else np.float64)
+                            gg.create_dataset(t, data=dat, maxshape=(None,), chunks=True)
+                else:
+                    columnfile.colfile_to_hdf(same, h5v, name="peaks")
+            diff = columnfile.colfile_from_dict({t: gen_values(r, n2, tcls[t]) for t in titles})
+            raised = None
+            with contextlib.redirect_stdout(io.StringIO()):
+                try:
+                    columnfile.colfile_to_hdf(diff, h5v, name="peaks")
+                except Exception as e:
+                    raised = e
+                try:
+                    b = columnfile.colfile_from_hdf(h5v, name="peaks")
+                    state = "new" if b.nrows == n2 and all(np.array_equal(np.asarray(b.getcolumn(t), float),
+                                                                          np.asarray(diff.getcolumn(t), float)) for t in titles) else \
+                        ("old" if b.nrows == n and all(np.array_equal(np.asarray(b.getcolumn(t), float),
+                                                                     np.asarray(same.getcolumn(t), float)) for t in titles)
+                         else "a mixture (%d rows)" % b.nrows)
+                except Exception as e:
+                    state = "unreadable (%s: %s)" % (type(e).__name__, e)
+            run.count("hdf_overwrites_different_length")
+            if raised is None and state != "new":
+                V("hdf:overwrite-different-length:silent",
+                  "%s overwrite (%d -> %d rows) did not raise and the file holds %s data" % (variant, n, n2, state))
+            if raised is not None and state != "old":
+                V("hdf:overwrite-different-length:mixture", "%s overwrite (%d -> %d rows) raised %s but the file now holds %s data"
+                  % (variant, n, n2, type(raised).__name__, state))
     finally:
         shutil.rmtree(d, ignore_errors=True)
 
